@@ -14,6 +14,7 @@ import OFV.Proofs.C07BCH
 import OFV.Proofs.C07Ops
 import OFV.Proofs.C07Hop
 import OFV.Proofs.C07DCp
+import OFV.Proofs.C07DoubleComm
 
 namespace OFV.C07
 open OFV OFV.Spec OFV.Spec.C07 OFV.Model OFV.Model.C07 OFV.Proofs.C07 OFV.Proofs.C07F
@@ -421,5 +422,35 @@ theorem dc_commutator_one_body_sound (tol : Rat) (A B prior : List (List (Nat ×
   dcCommutator_oneBody tol s u A B hA hB prior
 
 example : dcOneOne [(2, 1), (1, 0)] [(1, 1), (0, 0)] ⟨3, 0⟩ [] = [([(2, 1), (0, 0)], ⟨0 + 3, 0 + 0⟩)] := by decide +kernel
+
+/-! ### `double_commutator`, generic path -/
+
+/-- `double_commutator_def`, algebraic form: in EVERY ring interpretation of the ladder operators that
+satisfies the fermionic relations (`Relations I .fermion`: CAR) and has multiplicative coefficients,
+`normal_ordered(commutator(A, normal_ordered(commutator(B, C))))` (tolerance 0) denotes `[A, [B, C]]`.
+The Model's `normalOrdered` is the C03 Model, whose soundness theorem is used twice. -/
+theorem double_commutator_def_ring {A : Type} [Ring A] (I : Proofs.C03.Interp A)
+    (R : Proofs.C03.Relations I .fermion) (hmul : ∀ x y, I.ι (x * y) = I.ι x * I.ι y)
+    (a b c : List (List (Nat × Nat) × GQ)) :
+    I.evalOp (doubleCommutator 0 a b c) =
+      I.evalOp a * (I.evalOp b * I.evalOp c - I.evalOp c * I.evalOp b) -
+        (I.evalOp b * I.evalOp c - I.evalOp c * I.evalOp b) * I.evalOp a :=
+  Proofs.C07D.evalOp_doubleCommutator0 I R hmul a b c
+
+/-- `double_commutator_def` on Fock space: as endomorphisms of the Fock space of the Spec (the lifted
+`actF` action, `Proofs.C03.fockInterp`), `double_commutator(A, B, C)` is `[A, [B, C]]` — for the
+tolerance the code uses, in the exact regime (hypothesis: pruning with that tolerance changes nothing,
+i.e. the result equals the tolerance-0 result; an executable condition). -/
+theorem double_commutator_def (tol : Rat) (a b c : List (List (Nat × Nat) × GQ))
+    (hexact : doubleCommutator tol a b c = doubleCommutator 0 a b c) :
+    Proofs.C03.fockInterp.evalOp (doubleCommutator tol a b c) =
+      Proofs.C03.fockInterp.evalOp a *
+          (Proofs.C03.fockInterp.evalOp b * Proofs.C03.fockInterp.evalOp c -
+            Proofs.C03.fockInterp.evalOp c * Proofs.C03.fockInterp.evalOp b) -
+        (Proofs.C03.fockInterp.evalOp b * Proofs.C03.fockInterp.evalOp c -
+            Proofs.C03.fockInterp.evalOp c * Proofs.C03.fockInterp.evalOp b) *
+          Proofs.C03.fockInterp.evalOp a := by
+  rw [hexact]
+  exact Proofs.C07D.fock_doubleCommutator0 a b c
 
 end OFV.C07
